@@ -44,8 +44,38 @@ func NewServerSocket(e tcpip.Endpoint, q *waiter.Queue) *ServerSocket {
 //Write write
 func (s *ServerSocket) Write(buf []byte) error {
 	v := buffer.View(buf)
-	s.e.Write(tcpip.SlicePayload(v),
-		tcpip.WriteOptions{To: &s.addr})
+	// The endpoint takes only what fits into its send buffer and reports the
+	// rest with ErrWouldBlock: keep writing until everything is queued, waiting
+	// for the buffer to drain in between (the result used to be ignored, so the
+	// tail of a large message was silently dropped).
+	// 发送缓存放不下时端点只接受一部分并返回 ErrWouldBlock，需等待可写事件后继续写完
+	var (
+		waitEntry waiter.Entry
+		notifyC   chan struct{}
+	)
+	for {
+		n, _, err := s.e.Write(tcpip.SlicePayload(v),
+			tcpip.WriteOptions{To: &s.addr})
+		v = v[n:]
+		if err != nil && err != tcpip.ErrWouldBlock {
+			if notifyC != nil {
+				s.queue.EventUnregister(&waitEntry)
+			}
+			return errors.New(err.String())
+		}
+		if len(v) == 0 {
+			break
+		}
+		if notifyC == nil {
+			waitEntry, notifyC = waiter.NewChannelEntry(nil)
+			s.queue.EventRegister(&waitEntry, waiter.EventOut)
+			continue // the buffer may have drained before the registration
+		}
+		<-notifyC
+	}
+	if notifyC != nil {
+		s.queue.EventUnregister(&waitEntry)
+	}
 	return nil
 }
 
